@@ -358,7 +358,7 @@ class ModelsWorld(World):
                     tv = [q.human for q in r.real.quantities if "TRANSITION_VARIABLE" in str(q.kind)]
                     m["values"][rng.choice(tv)] = {"t": [round(val.uniform(0.5, 2.0), 3), round(val.uniform(0.9, 1.1), 3) if TEMPLATES[r.tname].get("growth") else 0.0]}
             elif x < 0.5:
-                m = {"k": "alter", "n": rng.randint(1, self.cfg["max_nv"])}
+                m = {"k": "alter", "n": self._alter_target(rng, nv)}
             elif x < 0.56 and nv > 1:
                 vals = {k: v for k, v in self._draw_params(val, r.tname, 1, subset=True, rng=rng).items()}
                 m = {"k": "assign_variant", "v": rng.randrange(nv), "values": vals, "how": rng.choice(["getitem", "get_variant"])}
@@ -391,7 +391,7 @@ class ModelsWorld(World):
             elif x < 0.6:
                 m = {"k": "assign_variant", "v": rng.randrange(max(nv, 1)), "values": self._draw_params(val, r.tname, 1, subset=True, rng=rng)}
             elif x < 0.8:
-                m = {"k": "alter", "n": rng.randint(1, self.cfg["max_nv"])}
+                m = {"k": "alter", "n": self._alter_target(rng, nv)}
             elif x < 0.92:
                 n = r.real.num_equations
                 order = list(range(n))
@@ -403,10 +403,17 @@ class ModelsWorld(World):
             if x < 0.5:
                 m = {"k": "estimate", "seed": val.randint(1, 50), "skip": rng.choice([0, 0, 2])}
             elif x < 0.75:
-                m = {"k": "alter", "n": rng.randint(1, self.cfg["max_nv"])}
+                m = {"k": "alter", "n": self._alter_target(rng, nv)}
             else:
                 m = {"k": "describe", "s": rng.choice(["", "var A", "renamed"])}
         return {"op": "mutate", "args": {"h": h, "m": m}}
+
+    def _alter_target(self, rng, nv):
+        # growing a model that already has several (different) variants is the case that tells "clone the last" from
+        # "clone the first": make it a regular event instead of one alter in six
+        if nv >= 2 and rng.random() < 0.45:
+            return nv + 1
+        return rng.randint(1, self.cfg["max_nv"])
 
     def _gen_read(self, actor, rng, val, flt):
         h = self._pick(rng, actor)
